@@ -84,20 +84,6 @@ theorem mtenc_cuts {P : Params} {c : Cfg} (h1 : 0 < c.bs) (h2 : 0 < c.tmax) {s :
   let h := (mtenc_inv h1 h2 hr).k
   ⟨h.cuts, h.flush⟩
 
-theorem flatten_eq_of_lengths : ∀ (a b : List Bytes), a.flatten = b.flatten → a.map List.length = b.map List.length → a = b
-  | [], [], _, _ => rfl
-  | [], _ :: _, _, h => by simp at h
-  | _ :: _, [], _, h => by simp at h
-  | x :: xs, y :: ys, hf, hl => by
-    simp only [List.map_cons, List.cons.injEq] at hl
-    simp only [List.flatten_cons] at hf
-    have hxy : x = y := by
-      have := congrArg (List.take x.length) hf
-      rw [List.take_left' rfl, hl.1, List.take_left' rfl] at this
-      exact this
-    subst hxy
-    rw [flatten_eq_of_lengths xs ys (List.append_cancel_left hf) hl.2]
-
 /-- **Determinism w.r.t. thread count and schedule** (used by C06): two finished runs — any parameters, any thread counts, any
     schedules — that consumed the same input with the same block_size and the same flush offsets produced the same list of
     Blocks (same cut points, same data per Block, in the same order). -/
@@ -235,16 +221,6 @@ theorem mtenc_reinit_safe {P : Params} {c : Cfg} (h1 : 0 < c.bs) (h2 : 0 < c.tma
 -- ---------------------------------------------------------------------------------------------------------------------
 -- non-vacuity: a concrete schedule reaches FULL_FLUSH -> STREAM_END, FINISH -> STREAM_END and a completed re-init
 -- ---------------------------------------------------------------------------------------------------------------------
-
-theorem reachable_run {P : Params} {c : Cfg} {s s' : St} (evs : List Ev) (hr : Reachable P c s) (h : run P s evs = some s') :
-    Reachable P c s' := by
-  induction evs generalizing s with
-  | nil => simp [run] at h; exact h ▸ hr
-  | cons e es ih =>
-    simp only [run] at h
-    cases hs : step P s e with
-    | none => simp [hs] at h
-    | some s1 => simp [hs] at h; exact ih (Reachable.step e hr hs) h
 
 def exP : Params where
   hdr := [1, 2]
